@@ -210,6 +210,16 @@ func handleCCR() diam.HandlerFunc {
 			}
 		}
 
+		if cca.SessionId == "" {
+			// every answer echoes the request it answers, whatever the requested action
+			cca.SessionId = ccr.SessionId
+			cca.OriginHost = ccr.DestinationHost
+			cca.OriginRealm = ccr.DestinationRealm
+			cca.CcRequestType = ccr.CcRequestType
+			cca.CcRequestNumber = ccr.CcRequestNumber
+			cca.EventTimestamp = datatype.Time(time.Now())
+		}
+
 		logger.AcctLog.Infof("UE [%s], Rating group [%d], quota [%d]", subscriberId, rg, quota)
 
 		chargingBsonM := make(bson.M)
